@@ -233,6 +233,9 @@ func recursionBound(p *Prog, ci ssa.CallInstruction, f, g *ssa.Function, in map[
 				if !pushedIsCompared(ci, cl) {
 					return false, fmt.Sprintf("the value pushed onto the visited list at %s is not the value the scan compares the list's elements with (e.g. an unresolved spelling is pushed while resolved paths are compared): the cycle test never matches", p.Pos(ci.Pos()))
 				}
+				if why := pushedUnresolved(p, cl); why != "" {
+					return false, fmt.Sprintf("the directory pushed onto the visited list at %s is %s, not the result of filepath.EvalSymlinks: a directory reached through two different links has two spellings, the containment test compares spellings, and a cycle of links through a linked directory is not recognised — the walk never ends", p.Pos(ci.Pos()), why)
+				}
 				return true, ""
 			}
 		}
@@ -1466,8 +1469,12 @@ func ruleC19OkUse(c *Checker) {
 			default:
 				return
 			}
-			okT, _ := boolEdges(fn, okv)
+			okT, okF := boolEdges(fn, okv)
 			for _, r := range *val.Referrers() {
+				if mu, isMU := r.(*ssa.MapUpdate); isMU && mu.Value == val && len(okF) > 0 && guarded(r.Block(), okF) {
+					c.fail(R, p.FuncName(fn), "comma-ok value stored back on the not-found edge", p.Pos(r.Pos()), "on the edge where the lookup found nothing, the (nil) value it returned is itself put into a table: the entry then exists and is nil — the next lookup succeeds and the value is dereferenced (two versions of one registry package: writeManifest panics)")
+					continue
+				}
 				ci2, isCall := r.(ssa.CallInstruction)
 				deref := isCall && ci2.Common().IsInvoke() && ci2.Common().Value == val
 				if fa, isFA := r.(*ssa.FieldAddr); isFA && fa.X == val {
@@ -1592,4 +1599,69 @@ func ruleC19OkUse(c *Checker) {
 			}
 		}
 	}
+}
+
+// pushedUnresolved: for a visited list of path strings, every pushed element is
+// the result of filepath.EvalSymlinks (directly, or of a module helper whose
+// success returns hand one out). Returns what it is instead, or "".
+func pushedUnresolved(p *Prog, ap *ssa.Call) string {
+	sl, ok := ap.Call.Args[1].(*ssa.Slice)
+	if !ok {
+		return ""
+	}
+	al, ok := sl.X.(*ssa.Alloc)
+	if !ok {
+		return ""
+	}
+	var resolved func(v ssa.Value, depth int) bool
+	resolved = func(v ssa.Value, depth int) bool {
+		v = canon(v)
+		var cl *ssa.Call
+		switch x := v.(type) {
+		case *ssa.Extract:
+			if x.Index != 0 {
+				return false
+			}
+			cl, _ = x.Tuple.(*ssa.Call)
+		case *ssa.Call:
+			cl = x
+		}
+		if cl == nil {
+			return false
+		}
+		if isFunc(calleeObj(cl), "path/filepath", "EvalSymlinks") {
+			return true
+		}
+		g := cl.Common().StaticCallee()
+		if g == nil || !p.InModule(g) || depth == 0 {
+			return false
+		}
+		rets := returnsOf(g)
+		n := 0
+		for _, r := range rets {
+			if len(r.Results) > 1 && !mayReturnNilErr(r) {
+				continue
+			}
+			n++
+			if len(r.Results) == 0 || !resolved(r.Results[0], depth-1) {
+				return false
+			}
+		}
+		return n > 0
+	}
+	for _, w := range elemWrites(al) {
+		if bt, ok := w.Val.Type().Underlying().(*types.Basic); !ok || bt.Kind() != types.String {
+			return ""
+		}
+		if !resolved(w.Val, 2) {
+			v := canon(w.Val)
+			if ex, ok := v.(*ssa.Extract); ok {
+				if cl, ok := ex.Tuple.(*ssa.Call); ok && calleeObj(cl) != nil {
+					return "the result of " + calleeObj(cl).FullName()
+				}
+			}
+			return "a value of another origin (" + v.String() + ")"
+		}
+	}
+	return ""
 }
